@@ -289,10 +289,12 @@ func (s *Skiplist) Put(key []byte, v y.ValueStruct) {
 		// Use higher level to speed up for current level.
 		prev[i], next[i] = s.findSpliceForLevel(key, prev[i+1], i)
 		if prev[i] == next[i] {
+			vhook.Point("skl.beforeSetValue")
 			prev[i].setValue(s.arena, v)
 			return
 		}
 	}
+	vhook.Point("skl.searched")
 
 	// We do need to create a new node.
 	height := s.randomHeight()
@@ -301,6 +303,7 @@ func (s *Skiplist) Put(key []byte, v y.ValueStruct) {
 	// Try to increase s.height via CAS.
 	listHeight = s.getHeight()
 	for height > int(listHeight) {
+		vhook.Point("skl.beforeHeightCAS")
 		if s.height.CompareAndSwap(listHeight, int32(height)) {
 			// Successfully increased skiplist.height.
 			break
@@ -323,6 +326,7 @@ func (s *Skiplist) Put(key []byte, v y.ValueStruct) {
 			}
 			nextOffset := s.arena.getNodeOffset(next[i])
 			x.tower[i].Store(nextOffset)
+			vhook.Point("skl.beforeCAS")
 			if prev[i].casNextOffset(i, nextOffset, s.arena.getNodeOffset(x)) {
 				// Managed to insert x between prev[i] and next[i]. Go to the next level.
 				break
@@ -333,6 +337,7 @@ func (s *Skiplist) Put(key []byte, v y.ValueStruct) {
 			prev[i], next[i] = s.findSpliceForLevel(key, prev[i], i)
 			if prev[i] == next[i] {
 				y.AssertTruef(i == 0, "Equality can happen only on base level: %d", i)
+				vhook.Point("skl.beforeSetValue")
 				prev[i].setValue(s.arena, v)
 				return
 			}
